@@ -247,7 +247,8 @@ def fill_builder(fb, filekey, seed, ctx, type_code, tables, plan=None, overrides
 
 def build_product(level="1.5", images=(("HH", None, 5, 4),), seed=0, leader=None, nfp=None, scene_id="ALOS2014410740-140829",
                   product_id=None, ctx=None, overrides=None, line_overrides=None, summary_extra=None, plan=None,
-                  pixel_special=True, blank=None, kind=None, sample=None, salt_base=None, informational=None, drift=False, vary_first=False, common_descriptor=False):
+                  pixel_special=True, blank=None, kind=None, sample=None, salt_base=None, informational=None, drift=False, vary_first=False, common_descriptor=False,
+                  shape_pairs="all"):
     """build a complete product.
 
     images: sequence of (pol, scan|None, n_lines, n_pixels)
@@ -335,7 +336,7 @@ def build_product(level="1.5", images=(("HH", None, 5, 4),), seed=0, leader=None
         b.files[im["name"]] = b.builders[im["name"]].bytes()
     b.files[trl_name] = trl.bytes()
     b.names = dict(vol=vol_name, led=led_name, trl=trl_name, images=[im["name"] for im in b.images])
-    b.summary_lines = summary_lines(b, names, level, summary_extra)
+    b.summary_lines = summary_lines(b, names, level, summary_extra, shape_pairs)
     b.files["summary.txt"] = ("\n".join(b.summary_lines) + "\n").encode()
     return b
 
@@ -348,7 +349,7 @@ class _NotSet:
 NOTSET = _NotSet()
 
 
-def summary_lines(b, names, level, extra=None):
+def summary_lines(b, names, level, extra=None, shape_pairs="all"):
     m = b.meta
     lv = level.replace(".", "")
     lines = [
@@ -373,7 +374,12 @@ def summary_lines(b, names, level, extra=None):
     for i, n in enumerate(names):
         lines.append(f'Pdi_L{lv}ProductFileName{i + 1:02d}="{n}"')
     lines.append('Pdi_BitPixel="16"')
-    for i, im in enumerate(b.images):
+    # the image sizes listed in the summary are informational (SummaryGrammar: class "shape"): one pair per image ("all"), no pair
+    # ("none"), fewer pairs than images ("fewer": one per scan, say), more pairs than images ("more")
+    k_img = len(b.images)
+    n_pairs = {"all": k_img, "none": 0, "fewer": max(0, min(k_img - 1, max(1, k_img // 2))), "more": k_img + 2}[shape_pairs]
+    for i in range(n_pairs):
+        im = b.images[i] if i < k_img else {"p": 11 + i, "n": 7 + i}
         lines.append(f'Pdi_NoOfPixels_{i}="{im["p"]}"')
         lines.append(f'Pdi_NoOfLines_{i}="{im["n"]}"')
     lines += [
